@@ -133,6 +133,7 @@ def tlc(module, cfg=None, workers=1, timeout=1800, env=None, xss='512m', xmx='4g
     if env:
         e.update({k: str(v) for k, v in env.items()})
     res = TlcResult()
+    res.env = {k: str(v) for k, v in (env or {}).items() if k != 'TRACE'}
     t0 = time.time()
     try:
         r = subprocess.run(cmd, cwd=cwd, stdout=subprocess.PIPE, stderr=subprocess.STDOUT, text=True,
@@ -303,7 +304,7 @@ class Check:
         self.violations.append({'key': key, 'what': what, 'replay': path})
         return True
 
-    def finish(self):
+    def finish(self, write_evidence=True):
         self.cov['samples'] = self.cov['samples'] or ['(none recorded)']
         ev = {
             'property_id': self.prop, 'tier': self.tier, 'seed': self.seed, 'level': self.level,
@@ -311,9 +312,10 @@ class Check:
             'wall_s': round(time.time() - self.t0, 1), 'violations': len(self.violations),
             'known_findings_hit': self.known, 'repo': repo_state(),
         }
-        os.makedirs(EVID, exist_ok=True)
-        with open(os.path.join(EVID, self.prop + '.json'), 'w') as f:
-            json.dump(ev, f, indent=1)
+        if write_evidence:
+            os.makedirs(EVID, exist_ok=True)
+            with open(os.path.join(EVID, self.prop + '.json'), 'w') as f:
+                json.dump(ev, f, indent=1)
         log('[%s] tier=%s states=%d transitions=%d traces=%d evaluations=%d nontrivial=%d violations=%d wall=%.0fs' % (
             self.prop, self.tier, self.cov['states'], self.cov['transitions'],
             self.cov['traces_validated_against_impl'], self.cov['evaluations'], self.cov['distinct_nontrivial'],
@@ -377,6 +379,63 @@ def validate_trace(chk, module, trace_path, name=None, timeout=1800, env=None, n
     return allok
 
 
+def keep_trace(prop, trace_path, limit=40 << 20):
+    """Copy a rejected trace next to the replay files so that ./check --replay can re-run it later."""
+    try:
+        if os.path.getsize(trace_path) > limit:
+            return None
+        d = os.path.join(REPLAYS, prop)
+        os.makedirs(d, exist_ok=True)
+        dst = os.path.join(d, '%s_%s' % (time.strftime('%Y%m%d_%H%M%S'), os.path.basename(trace_path)))
+        shutil.copy(trace_path, dst)
+        return dst
+    except Exception:
+        return None
+
+
+REPLAY_DRIVERS = {'accept': 'objreplay', 'derive': 'objreplay', 'wire': 'objreplay', 'layout': 'objreplay',
+                  'wrap': 'wrapreplay', 'edge': 'wrapreplay'}
+
+
+def generic_replay(chk, path):
+    """./check Cxx --replay file: re-run exactly the rejected trace through TLC, or the disagreeing case through the
+    replay driver, against the current tree."""
+    r = json.load(open(path))
+    exe = build_harness('release')
+    if r.get('module') and r.get('trace') and os.path.exists(r['trace']):
+        env = dict(r.get('tlc_env') or {})
+        env['TRACE'] = r['trace']
+        res = tlc(r['module'], workers=1, env=env, deque=True, timeout=3600, tag='replay ' + r['module'])
+        judge_trace(chk, res, r['module'], r['trace'], 'replay:' + r['module'])
+        log('note: the trace was recorded from the tree at the time of the violation; re-run the check to record a new one')
+    elif r.get('case') is not None:
+        case = r['case']
+        kind = case.get('kind')
+        cin = workfile('replay_case.ndjson')
+        cout = workfile('replay_result.ndjson')
+        if kind in REPLAY_DRIVERS:
+            write_ndjson(cin, [case])
+            args = [REPLAY_DRIVERS[kind], '--in', cin, '--out', cout] + (['--codec'] if kind == 'wrap' else [])
+            e = build_harness('checked') if r.get('profile') == 'checked' else exe
+            rc, out = run_drv(e, args)
+            log(out.strip())
+            for m in read_ndjson(cout):
+                chk.violation(r.get('key', 'replay'), 'replayed case still disagrees: ' + '; '.join(m['mismatch'])[:400], {'case': case, 'got': m.get('got'), 'mismatch': m['mismatch']})
+        elif 'steps' in case:
+            write_ndjson(cin, [case])
+            rc, out = run_drv(exe, ['plancache-replay', '--in', cin, '--out', cout])
+            log(out.strip())
+            for m in read_ndjson(cout):
+                chk.violation(r.get('key', 'replay'), 'forced schedule still disagrees: ' + '; '.join(m['mismatch'])[:400], {'case': case, 'mismatch': m['mismatch']})
+        else:
+            raise ToolError('this replay file holds only an excerpt of the failing history; re-run ./check %s to regenerate it' % chk.prop)
+    else:
+        raise ToolError('replay file has neither a trace nor a case (or the trace file is gone): ' + path)
+    chk.cov['evaluations'] = 1
+    chk.cov['distinct_nontrivial'] = 2
+    chk.cov['rule'] = 'replay of ' + path
+
+
 def judge_trace(chk, res, module, trace_path, name, nruns=1, key_of=None, offset=0):
     chk.add_tlc(res, name, trace=True)
     if res.ok:
@@ -411,7 +470,8 @@ def judge_trace(chk, res, module, trace_path, name, nruns=1, key_of=None, offset
             what += ' (invariant %s)' % res.invariant
         if mism:
             what += ' ' + ' | '.join(mism[:3])
-        chk.violation(key, what, {'module': module, 'trace': trace_path, 'event_index': idx, 'event': ev,
+        kept = keep_trace(chk.prop, trace_path)
+        chk.violation(key, what, {'module': module, 'trace': kept or trace_path, 'event_index': idx, 'event': ev, 'tlc_env': getattr(res, 'env', {}),
                                   'mismatch': mism[:10], 'invariant': res.invariant,
                                   'tlc_tail': res.out.splitlines()[-30:]})
         return False
